@@ -61,6 +61,10 @@ TRANSFORMS = (
     "else-unguard",
     "return-none",
     "args-to-keywords",
+    # compositions: the small edits of one change come together
+    "rename-locals+guard-else+args-to-keywords+flip-compare",
+    "return-temp+invert-if+ifexp-stmt+listcomp-loop+while-true",
+    "else-unguard+split-and+in-to-or+dict-literal+sort-keywords+rename-locals",
 )
 
 
@@ -506,11 +510,14 @@ _CLASSES = {
 def transform_source(src: str, name: str) -> tuple[str, int]:
     tree = ast.parse(src)
     n = 0
-    if name != "reformat":
-        t = _CLASSES[name]()
+    for part in name.split("+"):
+        if part == "reformat":
+            continue
+        t = _CLASSES[part]()
         tree = t.visit(tree)
-        n = t.count
+        n += t.count
         ast.fix_missing_locations(tree)
+        tree = ast.parse(ast.unparse(tree))  # (re-parse: the next transformation sees a consistent tree)
     out = ast.unparse(tree) + "\n"
     compile(out, "<equiv>", "exec")
     return out, n
